@@ -183,22 +183,22 @@ end
     (Protocol 0 only: `FloatsOK`, the float-text hypothesis of `C03_roundtrip`.) -/
 theorem C05_decodes_back (ip : IsPrint) (hip : ip 10 = false) (cfg : Cfg) (inp : Bytes) (st0 : DState) (hk0 : HeapKeys st0)
     (r : GoVal) (st' : DState) (rest : Bytes) (hdec : decode (goCfg cfg) none st0 inp = (.ok r, st', rest))
-    (v : GoVal) (hrep : Rep (goCfg cfg) st'.heap r v) (hw : wfRes cfg false v = true) (hs : shapeOK cfg v = true)
+    (v : GoVal) (hrep : Rep (goCfg cfg) GoVal.ref st'.heap r v) (hw : wfRes cfg false v = true) (hs : shapeOK cfg v = true)
     (c : ECfg) (hp0 : 0 ≤ c.proto) (hp5 : c.proto ≤ 5) (hsu : cfg.su = c.su) (hf : FloatsOK c (floatsOf v))
     (he : (encodeTop ip c none v).err = none) (st1 : DState) :
     ∃ r2 st2, decode (goCfg cfg) none st1 (flat (encodeTop ip c none v)) = (.ok r2, st2, []) ∧
-      Rep (goCfg cfg) st2.heap r2 v := by
+      Rep (goCfg cfg) GoVal.ref st2.heap r2 v := by
   have hk' : HeapKeys st' := by
     have := decode_heapKeys (goCfg cfg) none st0 inp hk0
     rw [hdec] at this; exact this
-  have hc : canon cfg v = true := canon_of_rep (mc := goCfg cfg) (fun o ho => (hk' o ho).1) v hrep hw hs
+  have hc : canon cfg true v = true := canon_of_rep (mc := goCfg cfg) (fun o ho => (hk' o ho).1) v hrep hw hs
   exact C03_roundtrip ip hip c cfg v hp0 hp5 hsu hc hf he st1
 
 
 /-- Non-vacuity: the pickle `}(K\x01]K\x02\x85Nu.` — a dict `{1: [], (2,): None}` built with SETITEMS —
     decodes (PyDict on) to a result that stands for that Dict, which meets the theorem's hypotheses. -/
 example : ∃ r st', decode (goCfg { pyDict := true, su := false }) none {} [125, 40, 75, 1, 93, 75, 2, 0x85, 78, 117, 46] = (.ok r, st', []) ∧
-    Rep (goCfg { pyDict := true, su := false }) st'.heap r (.dict [(.int 1, .list []), (.tuple [.int 2], .none)]) ∧
+    Rep (goCfg { pyDict := true, su := false }) GoVal.ref st'.heap r (.dict [(.int 1, .list []), (.tuple [.int 2], .none)]) ∧
     wfRes { pyDict := true, su := false } false (.dict [(.int 1, .list []), (.tuple [.int 2], .none)]) = true ∧
     shapeOK { pyDict := true, su := false } (.dict [(.int 1, .list []), (.tuple [.int 2], .none)]) = true := by
   refine ⟨.href 0, (decode (goCfg { pyDict := true, su := false }) none {} [125, 40, 75, 1, 93, 75, 2, 0x85, 78, 117, 46]).2.1,
@@ -222,7 +222,7 @@ theorem C05_reencode (ip : IsPrint) (hip : ip 10 = false) (cfg : Cfg) (inp : Byt
     (hf : FloatsOK c (floatsOf (resolveV st'.heap fuel r)))
     (he : (encodeTop ip c none (resolveV st'.heap fuel r)).err = none) (st1 : DState) :
     ∃ r2 st2, decode (goCfg cfg) none st1 (flat (encodeTop ip c none (resolveV st'.heap fuel r))) = (.ok r2, st2, []) ∧
-      Rep (goCfg cfg) st2.heap r2 (resolveV st'.heap fuel r) := by
+      Rep (goCfg cfg) GoVal.ref st2.heap r2 (resolveV st'.heap fuel r) := by
   obtain ⟨hinv, hwf⟩ := C16_result_wf (goCfg cfg) none (by simp [HookOK]) {} inp r st' rest (Inv.init _ _) hdec
   have hk' : HeapKeys st' := by
     have := decode_heapKeys (goCfg cfg) none {} inp HeapKeys.init
